@@ -43,6 +43,7 @@ SPECIAL = {
         'User': lambda v: ['--user', v], 'Secret': 'words:--secret', 'Mask': 'wordsp:--security-opt:mask=', 'Unmask': 'wordsp:--security-opt:unmask=',
         'Sysctl': 'strv:--sysctl', 'LogOpt': 'strv:--log-opt', 'AddCapability': 'strvl:--cap-add', 'DropCapability': 'strvl:--cap-drop',
         'Environment': 'kv:--env', 'Label': 'kv:--label', 'Annotation': 'kv:--annotation', 'PodmanArgs': 'words', 'PublishPort': 'all:--publish',
+        'AddDevice': 'devs:--device',
     },
     'volume': {'Label': 'kv:--label', 'PodmanArgs': 'words', 'Driver': lambda v: ['--driver', v]},
     'network': {'Label': 'kv:--label', 'Options': 'kv:--opt', 'PodmanArgs': 'words'},
@@ -53,6 +54,11 @@ SPECIAL = {
 }
 FN = {'container': 'from_container_unit', 'volume': 'from_volume_unit', 'network': 'from_network_unit', 'pod': 'from_pod_unit', 'kube': 'from_kube_unit',
       'image': 'from_image_unit', 'build': 'from_build_unit'}
+
+
+# AddDevice=[-]host[:container[:permissions]] in every arity; a leading '-' means: only if the host path exists
+DEVS = ['/dev/fuse', '/dev/a:/dev/b', '/dev/a:/dev/b:rwm', '/dev/a:rwm', '-/dev/null', '-/dev/null:/dev/b', '-/dev/null:/dev/b:rwm', '-/dev/null:rwm',
+        '-/dev/nonexistent-xyz', '-/dev/nonexistent-xyz:/dev/b:rwm', '-/dev/null:/dev/null:rwm']
 
 
 def dq(v):
@@ -122,6 +128,9 @@ def corr_ops(ctx):
     for _ in range(6000 if ctx.thorough else 1500):
         ty = rnd.choice(G.TYPES)
         ops.append(f'convert\t{rnd.choice("01")}\t0\t{hx("/q/" + G.file_name(rnd, ty))}\t{hx(G.unit(rnd, ctx.tables, ty, nkeys=12, near_miss=0.0))}')
+    # combinations of the keys each handler function looks at
+    for ty, text, fn in G.group_units(rnd, ctx.tables, core.REPO, reps=2 if ctx.thorough else 1):
+        ops.append(f'convert\t{rnd.choice("01")}\t0\t{hx("/q/g." + ty)}\t{hx(text)}')
     # every documented key on its own with each value
     for ty in G.TYPES:
         base = '[' + G.SEC[ty] + ']\n' + ''.join(l + '\n' for l in G.BASE[ty])
@@ -185,6 +194,10 @@ def oracle(ctx):
             elif m[0] == 'all':
                 line = f'{key}={dq(v)}'
                 exp_v = v
+            elif m[0] == 'devs':
+                words = rnd.sample(DEVS, 2)
+                line = key + '=' + ' '.join(words)
+                exp_v = words
         # Exec for containers so that "image then Exec args last" is observable
         tail = ['Exec=run "the end"'] if ty == 'container' else []
         base_text = sec + '\n'.join(lines + tail) + '\n'
@@ -232,6 +245,13 @@ def oracle(ctx):
                 want = [x for w in exp_v for x in [m[1], w]]
             elif m[0] == 'strvl':
                 want = [x for w in exp_v for x in [m[1], w.lower()]]
+            elif m[0] == 'devs':
+                want = []
+                for w in exp_v:
+                    if w.startswith('-'):
+                        want += [m[1], w[1:]] if os.path.exists(w[1:].split(':')[0]) else []
+                    else:
+                        want += [m[1], w]
             elif m[0] == 'kv':
                 import collections
                 def vals(av):
